@@ -170,6 +170,11 @@ class Builder:
         self.order = []         # definition order of inlined functions
         self.stack = []
         self.retref = [False]   # does the function being translated return a reference? (return <lvalue> is then no access)
+        self.local_skipped = 0  # member accesses on automatic (local) objects of tracked classes: thread-local, not emitted
+        self.dtor_inlined = 0   # implicit destructor calls of locals that were inlined
+        self.dying = [set()]    # per function: pointer variables whose object is freed in this function (finalisation)
+        self.taint = [set()]    # per function: ids of local pointer variables that point into block (JIT) memory
+        self.src_memo = {}
         self.visited = set()    # ids of MemberExpr / call nodes that were translated (audit of the traversal)
         self.unvisited = {}     # function -> number of evaluated member accesses / calls the traversal never reached
         self.unknown_ctx = {}   # statement/expression kinds met without a dedicated rule (reported)
@@ -208,6 +213,132 @@ class Builder:
         is_ptr = dqt.rstrip().endswith("*") and not self._is_record_pointee(tu, qt, dqt)
         return cls, m.get("name", "?"), is_ptr
 
+    def _rooted_at_local(self, tu, n):
+        """MemberExpr chain `x.a.b` (dots only) whose root x is a local variable / by-value parameter of class type"""
+        cur = n
+        while True:
+            if cur.get("kind") == "MemberExpr":
+                if cur.get("isArrow"):
+                    return False
+                inner = [c for c in cur.get("inner", []) or [] if isinstance(c, dict)]
+                if not inner:
+                    return False
+                cur = inner[0]
+            elif cur.get("kind") in ("ParenExpr", "ImplicitCastExpr") and cur.get("castKind") in (None, "NoOp", "LValueToRValue"):
+                cur = (cur.get("inner") or [{}])[0]
+            else:
+                break
+        if cur.get("kind") != "DeclRefExpr":
+            return False
+        rd = cur.get("referencedDecl") or {}
+        if rd.get("kind") not in ("VarDecl", "ParmVarDecl"):
+            return False
+        v = tu.byid.get(rd.get("id"), rd)
+        if v.get("_filescope") or v.get("storageClass") in ("static", "extern"):
+            return False
+        t = (v.get("type") or {})
+        dq = t.get("desugaredQualType", t.get("qualType", "")).strip()
+        return not (dq.endswith("&") or dq.endswith("*"))
+
+    # -- provenance of pointers into the blocks' virtual memory ("<jit memory>")
+    JIT_CLASS, JIT_FIELD = "JitAllocatorBlock", "<jit memory>"
+
+    def _is_mapping_member(self, tu, n):
+        if n.get("kind") != "MemberExpr":
+            return False
+        fi = self.field_info(tu, n)
+        return fi is not None and fi[0] == "VirtMem::DualMapping" and fi[1] in ("rx", "rw")
+
+    def _returns_mapping_pointer(self, tu, d):
+        """callee with a pointer result whose own body reads DualMapping::rx/rw (JitAllocatorBlock::rx_ptr / rw_ptr)"""
+        df = tu.defs.get(d.get("id"))
+        if df is None:
+            return False
+        key = (id(tu), df["id"])
+        if key not in self.src_memo:
+            rt = (df.get("type") or {}).get("qualType", "").split("(")[0].strip()
+            found = [False]
+
+            def walk(x):
+                if self._is_mapping_member(tu, x):
+                    found[0] = True
+                for c in x.get("inner", []) or []:
+                    if isinstance(c, dict) and not found[0]:
+                        walk(c)
+            if rt.endswith("*"):
+                walk(df)
+            self.src_memo[key] = found[0]
+        return self.src_memo[key]
+
+    def is_jit_pointer(self, tu, n):
+        """does expression n (syntactically) carry a pointer into a block's mapping?"""
+        if not isinstance(n, dict):
+            return False
+        k = n.get("kind")
+        if self._is_mapping_member(tu, n):
+            return True
+        if k == "DeclRefExpr" and (n.get("referencedDecl") or {}).get("id") in self.taint[-1]:
+            return True
+        if k in ("CallExpr", "CXXMemberCallExpr"):
+            inner = [c for c in n.get("inner", []) or [] if isinstance(c, dict)]
+            d, _, _ = self.callee_decl(tu, n, inner)
+            return d is not None and self._returns_mapping_pointer(tu, d)
+        if k in ("LambdaExpr", "UnaryExprOrTypeTraitExpr"):
+            return False
+        return any(self.is_jit_pointer(tu, c) for c in n.get("inner", []) or [] if isinstance(c, dict))
+
+    def freed_vars(self, tu, df):
+        out = set()
+
+        def walk(x):
+            if x.get("kind") == "CallExpr":
+                inner = [c for c in x.get("inner", []) or [] if isinstance(c, dict)]
+                d, _, args = self.callee_decl(tu, x, inner)
+                if d is not None and d.get("name") == "free" and args:
+                    a = self._strip(args[0])
+                    if a.get("kind") == "DeclRefExpr":
+                        out.add((a.get("referencedDecl") or {}).get("id"))
+            for c in x.get("inner", []) or []:
+                if isinstance(c, dict):
+                    walk(c)
+        walk(df)
+        return out
+
+    def compute_taint(self, tu, df):
+        """flow-insensitive: local variables initialised / assigned from an expression that carries a mapping pointer"""
+        t = set()
+        self.taint.append(t)
+        changed = True
+        while changed:
+            changed = False
+
+            def walk(x):
+                nonlocal changed
+                k = x.get("kind")
+                if k == "VarDecl" and x.get("id") not in t:
+                    dq = (x.get("type") or {}).get("desugaredQualType", (x.get("type") or {}).get("qualType", ""))
+                    if dq.rstrip().endswith("*") and any(self.is_jit_pointer(tu, c) for c in x.get("inner", []) or [] if isinstance(c, dict)):
+                        t.add(x.get("id")); changed = True
+                if k == "BinaryOperator" and x.get("opcode") in ("=", "+=", "-="):
+                    inner = [c for c in x.get("inner", []) or [] if isinstance(c, dict)]
+                    if len(inner) == 2:
+                        lhs = self._strip(inner[0])
+                        if lhs.get("kind") == "DeclRefExpr" and (lhs.get("referencedDecl") or {}).get("kind") == "VarDecl":
+                            vid = (lhs.get("referencedDecl") or {}).get("id")
+                            v = tu.byid.get(vid, {})
+                            dq = (v.get("type") or {}).get("desugaredQualType", (v.get("type") or {}).get("qualType", ""))
+                            if vid not in t and dq.rstrip().endswith("*") and self.is_jit_pointer(tu, inner[1]):
+                                t.add(vid); changed = True
+                for c in x.get("inner", []) or []:
+                    if isinstance(c, dict):
+                        walk(c)
+            walk(df)
+
+    def jit_access(self, tu, fn, arg, pt):
+        if pt and self.is_jit_pointer(tu, arg):
+            return [("acc", fn, self.JIT_CLASS, self.JIT_FIELD, m.upper()) for m in (("r", "w") if pt == "rw" else (pt,))]
+        return []
+
     # -- expressions
     def expr(self, tu, fn, n, mode=None, pointee=None):
         """returns skeleton of evaluating expression/statement n. mode: how the designated lvalue is used (r/w/rw/None=unknown)."""
@@ -225,11 +356,21 @@ class Builder:
                 # member function reference outside a call (or static member): evaluate base
                 return E(base) if base else ("skip",)
             cls, fld, is_ptr = fi
+            if self._rooted_at_local(tu, n):
+                # member of an automatic object (e.g. `VirtMem::DualMapping virt_mem` in JitAllocator_new_block): not shared
+                self.local_skipped += 1
+                return E(base) if base is not None else ("skip",)
             ev = []
             m = mode or "w"     # unknown context: conservative
             if base is not None:
                 ev.append(E(base, None if n.get("isArrow") else mode))
-            for mm in (("r", "w") if m == "rw" else (() if m == "addr" else (m,))):
+            if m in ("w", "rw") and n.get("isArrow") and base is not None:
+                root = self._strip(base)
+                if root.get("kind") == "DeclRefExpr" and (root.get("referencedDecl") or {}).get("id") in self.dying[-1]:
+                    # write to a member of an object that this very function frees: finalisation of an object that has been
+                    # unlinked (under the lock) and is reachable by nobody else; treated like initialisation (must hold the lock)
+                    m = "i" if m == "w" else "ri"
+            for mm in {"rw": ("r", "w"), "ri": ("r", "i"), "addr": ()}.get(m, (m,)):
                 ev.append(("acc", fn, cls, fld, mm.upper()))
             if pointee and is_ptr:
                 for mm in (("r", "w") if pointee == "rw" else (pointee,)):
@@ -283,10 +424,10 @@ class Builder:
                 # address computation is not an access; what is done through the pointer is known only for call arguments
                 return E(inner[0], pointee or "w")
             if op == "*":
-                return E(inner[0], None, mode or "w")
+                return seq([E(inner[0], None, mode or "w")] + self.jit_access(tu, fn, inner[0], mode or "w"))
             return seq([E(c) for c in inner])
         if k == "ArraySubscriptExpr":
-            return seq([E(inner[0], None, mode or "w"), E(inner[1])])
+            return seq([E(inner[0], None, mode or "w"), E(inner[1])] + self.jit_access(tu, fn, inner[0], mode or "w"))
         if k in ("ConditionalOperator", "BinaryConditionalOperator"):
             if len(inner) == 3:
                 return seq([E(inner[0]), alt(E(inner[1], mode, pointee), E(inner[2], mode, pointee))])
@@ -392,6 +533,7 @@ class Builder:
         for i, a in enumerate(args):
             m, pt = pm[i] if i < len(pm) else (None, "w")
             ev.append(self.expr(tu, fn, a, m, pt))
+            ev += self.jit_access(tu, fn, a, pt)
         ev.append(self.inline(tu, fn, d, qname))
         return seq(ev)
 
@@ -434,10 +576,14 @@ class Builder:
         rec = tu.func_record(df)
         fqt = (df.get("type") or {}).get("qualType", "")
         self.retref.append(fqt.split("(")[0].strip().endswith("&"))
+        self.compute_taint(tu, df)
+        self.dying.append(self.freed_vars(tu, df))
         try:
             tree = self._function_body(tu, df, name, rec)
         finally:
             self.retref.pop()
+            self.taint.pop()
+            self.dying.pop()
         missing = self.audit(tu, df)
         if missing:
             self.unvisited[name] = self.unvisited.get(name, 0) + missing
@@ -470,7 +616,7 @@ class Builder:
                 sub = [self.expr(tu, name, x) for x in c.get("inner", []) or []]
                 if ai and ai.get("kind") == "FieldDecl":
                     cls = tu.strip_ns(re.sub(r"<.*>", "", tu.owner.get(ai.get("id")) or rec or "?"))
-                    sub.append(("acc", name, cls, ai.get("name", "?"), "W"))
+                    sub.append(("acc", name, cls, ai.get("name", "?"), "I"))   # initialisation of a member of the object under construction
                 ev.append(seq(sub))
             elif k == "CompoundStmt":
                 ev.append(self.stmt(tu, name, c))
@@ -493,6 +639,7 @@ class Builder:
         for i, a in enumerate(inner):
             m, pt = pm[i] if i < len(pm) else (None, None)
             ev.append(self.expr(tu, fn, a, m, pt))
+            ev += self.jit_access(tu, fn, a, pt)
         if cand is not None and not cand.get("isImplicit"):
             ev.append(self.inline(tu, fn, cand, tu.strip_ns(base) + "::" + cand.get("name", "ctor")))
         return seq(ev)
@@ -579,6 +726,23 @@ class Builder:
         inner = [c for c in body.get("inner", []) or [] if isinstance(c, dict)]
         return seq([alt(self.expr(tu, fn, c), ("skip",)) for c in inner])
 
+    def local_dtor(self, tu, fn, v):
+        """implicit destructor call of an automatic object: it runs when the enclosing block is left, i.e. in the lock context of
+        that block; for the (flow-insensitive within a lock scope) checker its events are placed right after the declaration"""
+        t = (v.get("type") or {})
+        dq = t.get("desugaredQualType", t.get("qualType", "")).strip()
+        if dq.endswith("&") or dq.endswith("*") or v.get("storageClass") == "static":
+            return ("skip",)
+        base = re.sub(r"<.*>", "", dq.replace("const ", "").strip())
+        for rname, nodes in tu.records.items():
+            if rname == base or rname == "asmjit::" + base or rname.endswith("::" + base):
+                for rn in nodes:
+                    for c in rn.get("inner", []) or []:
+                        if c.get("kind") == "CXXDestructorDecl" and not c.get("isImplicit") and tu.defs.get(c.get("id")) is not None:
+                            self.dtor_inlined += 1
+                            return self.inline(tu, fn, c, tu.strip_ns(base) + "::" + c.get("name", "~"))
+        return ("skip",)
+
     def vardecl(self, tu, fn, v):
         qt, dqt = self._qt(v)
         if v.get("storageClass") == "static":
@@ -613,6 +777,7 @@ class Builder:
                             out.append(("locked", fn, cls, fld, rest))
                             return seq(out)
                         out.append(self.vardecl(tu, fn, dcl))
+                        out.append(self.local_dtor(tu, fn, dcl))
                     else:
                         out.append(self.stmt(tu, fn, dcl))
             else:
@@ -674,7 +839,7 @@ def emit_tree(t, names, ind=2):
     if k == "ret":
         return "SRet"
     if k == "acc":
-        return "SAcc %s %s %s %s" % (coq_str(t[1]), coq_str(t[2]), coq_str(t[3]), "W" if t[4] == "W" else "R")
+        return "SAcc %s %s %s %s" % (coq_str(t[1]), coq_str(t[2]), coq_str(t[3]), {"W": "W", "I": "Ini"}.get(t[4], "R"))
     if k == "glob":
         return "SGlob %s %s %s %s" % (coq_str(t[1]), coq_str(t[2]), "W" if t[3] == "W" else "R", "true" if t[4] else "false")
     if k == "call":
@@ -830,7 +995,8 @@ def gen_skeleton(repo):
     out.append("Proof. vm_compute. reflexivity. Qed.")
     out.append("")
     return "\n".join(out).replace(repo.rstrip("/") + "/", ""), {"entry_points": [s for s, _, _ in sorted(eps)], "excluded": sorted(excluded), "events": stats,
-                            "inlined_functions": len(b.order), "unknown_ast_kinds": b.unknown_ctx, "untranslated_nodes": b.unvisited,
+                            "inlined_functions": len(b.order), "unknown_ast_kinds": b.unknown_ctx, "untranslated_nodes": b.unvisited, "local_object_accesses_skipped": b.local_skipped,
+                            "implicit_destructors_inlined": b.dtor_inlined,
                             "lock_impl": li, "_builder": b, "_eps": eps}
 
 
@@ -893,7 +1059,7 @@ def gen_globals(lib, repo):
         else:
             key = name
             for _ in range(4):
-                key = re.sub(r"\([^()]*\)", "", key)
+                key = re.sub(r"\([^()]*\)( const)?", "", key)
             key = re.sub(r"^asmjit::", "", key)
             kind = kinds.get((tu_name, key), "unknown")
         out_syms.append((tu_name, kind, name))
